@@ -2,6 +2,7 @@ package saml
 
 import (
 	"fmt"
+	"math"
 	"regexp"
 	"strconv"
 	"strings"
@@ -119,7 +120,7 @@ func (d *Duration) UnmarshalText(text []byte) error {
 			if err != nil {
 				return fmt.Errorf("invalid duration seconds (%s): %s", text, err)
 			}
-			out += time.Duration(s * float64(time.Second))
+			out += time.Duration(math.Round(s * float64(time.Second)))
 		}
 	}
 
